@@ -54,6 +54,8 @@ EXPRS = [
     "to_binary('61', 'HEX')", "hex_decode_binary('61')", "'abc'::binary", "row_number() over (order by 1)", "sum(1) over ()",
 ]
 
+_PLAIN_EXPRS = [e for e in EXPRS if not any(k in e for k in ("count(", "sum(", "avg(", "min(", "max(", " over ", "random(", "current_"))]
+
 DECLARED = [
     ("INT", FIXED, 38, 0), ("INTEGER", FIXED, 38, 0), ("BIGINT", FIXED, 38, 0), ("SMALLINT", FIXED, 38, 0), ("NUMBER", FIXED, 38, 0),
     ("NUMBER(10,2)", FIXED, 10, 2), ("NUMBER(38,10)", FIXED, 38, 10), ("DECIMAL(12,3)", FIXED, 12, 3), ("NUMERIC(5,1)", FIXED, 5, 1),
@@ -96,6 +98,18 @@ def gen_cases(tier: str, seed: int):
             yield {"part": "N", "prev": prev, "style": style}
     for q in ("select a, random(99) as r from people2", "select random(7)", "select id from people sample (50) seed (3)"):
         yield {"part": "B3", "sql": q}
+    # composed queries: several expressions / table columns with aliases, wrapped in subquery / CTE / UNION ALL / empty results
+    for _ in range(250 if tier == "quick" else 6000):
+        k = r.randint(1, 5)
+        items = []
+        for j in range(k):
+            if r.random() < 0.25:
+                items.append(["col", r.choice(["ID", "NAME", "AGE", "SCORE", "id", "Name"])])
+            else:
+                items.append(["expr", r.choice(_PLAIN_EXPRS)])
+        aliases = [r.choice(["X", "y", "Col1", '"q n"', '"lower"', "ID", "X", None]) for _ in range(k)]
+        yield {"part": "R", "items": items, "aliases": aliases, "from": r.random() < 0.5 or any(i[0] == "col" for i in items),
+               "wrap": r.choice(["none", "none", "subquery", "cte", "union_all", "limit0", "where_false", "order_limit"])}
     # parametrised statements: description after bound-parameter execution
     for style in ("pyformat", "qmark"):
         for sql in ("select {p} as x", "insert into orders (id, note) values ({p}, {p})", "select id from people where id = {p}",
@@ -200,6 +214,8 @@ def run_case(case: dict, env: core.Env) -> None:
         return _part_b3(case, env)
     if part == "N":
         return _part_n(case, env)
+    if part == "R":
+        return _part_r(case, env)
     return _part_p(case, env)
 
 
@@ -382,6 +398,68 @@ def _part_d(case: dict, env: core.Env) -> None:
             return
         _check_desc(env, f"expr:{e}", sql, cur.description, o["rows"], use_dict)
     env.nontrivial(("D", e, case["ctx"]))
+
+
+def _part_r(case: dict, env: core.Env) -> None:
+    fs, conn = _shared()
+    sel, want_names = [], []
+    for j, ((kind, text), alias) in enumerate(zip(case["items"], case["aliases"])):
+        if alias is None and kind == "expr":
+            alias = f"E{j}"
+        sel.append(text + (f" AS {alias}" if alias else ""))
+        nm = alias if alias else text
+        want_names.append(nm[1:-1] if nm.startswith('"') else nm.upper())
+    inner = "SELECT " + ", ".join(sel) + (" FROM PEOPLE" if case["from"] else "")
+    wrap = case["wrap"]
+    dup = len(set(want_names)) != len(want_names)
+    if dup and wrap in ("subquery", "cte", "union_all"):
+        wrap = "none"  # ambiguous column names cannot be selected through a derived table
+    sql = {"none": inner, "subquery": f"SELECT * FROM ({inner}) t", "cte": f"WITH c AS ({inner}) SELECT * FROM c",
+           "union_all": f"{inner} UNION ALL {inner}", "limit0": f"{inner} LIMIT 0",
+           "where_false": inner + (" WHERE 1 = 0" if case["from"] else " LIMIT 0"),
+           "order_limit": inner + (" ORDER BY ID LIMIT 2" if case["from"] and not dup else " LIMIT 2")}[wrap]
+    env.cover("composed_wrap", wrap)
+    base_desc = None
+    for use_dict in (False, True):
+        cur = conn.cursor(core.DictCursor) if use_dict else conn.cursor()
+        o = core.run_stmt(cur, sql)
+        if not o["ok"]:
+            env.count("expression_rejected")
+            env.cover("composed_rejected", o["exc"]["cls"])
+            return
+        env.count("cmp_readable")
+        d = core.read_description(cur)
+        if not d["ok"]:
+            env.witness(_raise_key(d["exc"], "composed"), f"after {sql!r}: {d['exc']}"[:500])
+            return
+        if d["names"] != want_names:
+            env.witness(f"C06/names/composed/{'quoted' if any(n != n.upper() or ' ' in n for n in want_names) else 'unquoted'}-alias",
+                        f"{sql!r}: description names {d['names']} expected {want_names}")
+            return
+        _check_desc(env, "composed", sql, cur.description, o["rows"], use_dict)
+        if base_desc is not None and d["desc"] != base_desc:
+            env.witness("C06/description-differs/tuple-vs-dict-cursor", f"{sql!r}: {base_desc} vs {d['desc']}")
+        base_desc = d["desc"]
+        # describe() of the same text gives the same answer and leaves the result alone
+        env.count("cmp_describe")
+        try:
+            dd = [tuple(x) for x in conn.cursor().describe(sql)]
+        except Exception as e:  # noqa: BLE001
+            env.witness(f"C06/describe-raises/composed/{type(e).__name__}", f"{sql!r}: {e}"[:300])
+            return
+        if dd != [tuple(x) for x in d["desc"]]:
+            env.witness("C06/describe-differs-from-description/composed", f"{sql!r}: describe {dd} description {d['desc']}")
+            return
+    # an empty result has the same description as the full one
+    if wrap in ("limit0", "where_false"):
+        cur = conn.cursor()
+        o2 = core.run_stmt(cur, inner)
+        if o2["ok"]:
+            d2 = core.read_description(cur)
+            env.count("cmp_empty_vs_full")
+            if d2["ok"] and d2["desc"] != base_desc:
+                env.witness("C06/description-differs/empty-result-vs-full", f"{sql!r}: {base_desc} vs full {d2['desc']}")
+    env.nontrivial(("R", sql))
 
 
 def _part_s(case: dict, env: core.Env) -> None:
